@@ -41,6 +41,7 @@ class State:
         self.nonring = False
         self.minw = 99
         self.doubt = False  # static widths could not be established for this run
+        self.mixed_fixed = False  # an operation / coercion between Qfixed values of different (integer, fractional) sizes happened
 
 
 ST = State()
@@ -223,19 +224,21 @@ class F:
             ST.ovf = True
 
     @staticmethod
-    def _same(a, b):
+    def _join(a, b):
+        """static type of a binary operation: both operands on a common grid, binary points aligned"""
         if not isinstance(b, F):
             raise Unsupported("fixed mixed with non-fixed")
         if (a.i, a.f) != (b.i, b.f):
-            raise Unsupported("mixed fixed types")
+            ST.mixed_fixed = True
+        return max(a.i, b.i), max(a.f, b.f)
 
     def __add__(s, o):
-        F._same(s, o)
-        return F(s.v + o.v, s.i, s.f)
+        i, f = F._join(s, o)
+        return F(s.v + o.v, i, f)
 
     def __sub__(s, o):
-        F._same(s, o)
-        return F(s.v - o.v, s.i, s.f)
+        i, f = F._join(s, o)
+        return F(s.v - o.v, i, f)
 
     def __mul__(s, o):
         if isinstance(o, U):
@@ -247,7 +250,7 @@ class F:
     __rmul__ = __mul__
 
     def _c(s, o):
-        F._same(s, o)
+        F._join(s, o)
         return o.v
 
     def __eq__(s, o):
@@ -463,7 +466,17 @@ def _K(c):
 
 
 def _KF(c):
-    raise Unsupported("float literal")
+    """a float literal: its Python value, on the smallest grid that holds it.  The library types float literals by
+    approximation (first shipped type within 0.05 of the value); literals with at most four fractional bits below 16 are exact in
+    the type it picks, the others are outside what the reference judges"""
+    v = Fraction(c)
+    if v < 0 or v >= 16 or (v * 16).denominator != 1:
+        raise Unsupported("float literal the library approximates")
+    i = max(1, int(v).bit_length())
+    f = 2
+    while (v * (1 << f)).denominator != 1:
+        f += 1
+    return F(v, i, f)
 
 
 def _KC(c):
@@ -472,6 +485,18 @@ def _KC(c):
 
 def _widen(sel, others):
     """static typing: an if-expression / min / max / variable index has the widest operand's width"""
+    if isinstance(sel, F):
+        i, f = sel.i, sel.f
+        for o in others:
+            if isinstance(o, F):
+                if (o.i, o.f) != (sel.i, sel.f):
+                    ST.mixed_fixed = True
+                i, f = max(i, o.i), max(f, o.f)
+        if (i, f) != (sel.i, sel.f):
+            keep = ST.ovf
+            sel = F(sel.v, i, f)
+            ST.ovf = keep
+        return sel
     if isinstance(sel, U):
         w = sel.w
         for o in others:
@@ -716,8 +741,8 @@ def judge(ret_t, result, st):
         else:
             i, f = codec.fixed_if(t)
             if (r.i, r.f) != (i, f):
-                raise Unsupported("fixed return coercion")
-            e = codec.encode(t, r.v)
+                st.mixed_fixed = True
+            e = codec.encode(t, r.v) if 0 <= r.v < (1 << i) and (r.v * (1 << f)).denominator == 1 else None
             if e is None or flagged:
                 bits += [(0, False)] * (i + f)
             else:
